@@ -114,7 +114,16 @@ def op_cp_reweight(state: State, a: Dict[str, Any], env: simenv.SimEnv) -> Any:
             changed.append([u, v, canon_value(wa), canon_value(na)])
             changed.append([x, y, canon_value(wb), canon_value(nb)])
             continue
-        u, v = order[int(ed["pick"]) % len(order)]
+        if "pick_heavy" in ed:
+            # among the edges that were heaviest when the graph was built (the frozen edge objects carry that
+            # weight, so the same pick names the same edge in every session and on every restored copy)
+            def built(e):
+                ob = cp.edges[e].get("object")
+                return -int(getattr(ob, "weight", 0) or 0)
+            heavy = sorted(order, key=lambda e: (built(e), e))[:8]
+            u, v = heavy[int(ed["pick_heavy"]) % len(heavy)]
+        else:
+            u, v = order[int(ed["pick"]) % len(order)]
         old = cp.edges[u, v]["weight"]
         if "set" in ed:
             new = int(ed["set"])
